@@ -87,7 +87,7 @@ theorem text_substitutions_allowed (n : Node) (ps : Bool) (t : String) (cwd cwd'
 /-- an approved string parses, and each of its top-level nodes is approved -/
 theorem string_level (fuel : Nat) (s cwd : String) (r : Bool)
     (ha : (analyzeStr w h (fuel + 1) s cwd r).action = .allow) :
-    ∃ nodes, w.parse (Py.strip s) = .ok nodes ∧
+    ∃ nodes, w.parse (stripCmd s) = .ok nodes ∧
       ∀ n ∈ nodes, (aNode w (analyzeStr w h fuel) h n cwd r).action = .allow := by
   simp only [analyzeStr] at ha
   split at ha
@@ -114,10 +114,10 @@ theorem out_of_fuel_never_allows (s cwd : String) (r : Bool) :
     raw text, and so on -/
 inductive Runs : String → String → Bool → Node → String → Prop where
   | here {s cwd r nodes n c cwd'} :
-      w.parse (Py.strip s) = .ok nodes → n ∈ nodes →
+      w.parse (stripCmd s) = .ok nodes → n ∈ nodes →
       Reach w.resolveCd w.arithWalked r (.node n, cwd) (.node c, cwd') → Runs s cwd r c cwd'
   | inText {s cwd r nodes n ps t cwd' inner rel c cwd''} :
-      w.parse (Py.strip s) = .ok nodes → n ∈ nodes →
+      w.parse (stripCmd s) = .ok nodes → n ∈ nodes →
       Reach w.resolveCd w.arithWalked r (.node n, cwd) (.text ps t, cwd') →
       ScanItem.sub inner rel ∈ scanItems ps t →
       Runs inner cwd' r c cwd'' → Runs s cwd r c cwd''
